@@ -50,3 +50,18 @@ func mergeHeaders(into, from http.Header) {
 		into[k] = append(into[k], vals...)
 	}
 }
+
+// mergeErrorMetadata merges an error's metadata into the headers or trailers
+// of the response that reports it. Errors are often forwarded from another
+// RPC, and a client-side error's metadata holds that RPC's response headers.
+// The ones that describe the forwarded HTTP message itself (its length,
+// encoding and media type) must not end up describing ours.
+func mergeErrorMetadata(into, meta http.Header) {
+	for k, vals := range meta {
+		switch http.CanonicalHeaderKey(k) {
+		case "Content-Length", "Content-Encoding", "Content-Type", "Transfer-Encoding":
+			continue
+		}
+		into[k] = append(into[k], vals...)
+	}
+}
